@@ -441,3 +441,17 @@ impl From<BlockState> for u8 {
         }
     }
 }
+
+/// Verification hook (C35): the cell free list of the mark-sweep block containing `addr`, as
+/// (block start, recorded cell size, cells in list order). Walks at most `limit` links.
+#[cfg(mmtk_verif)]
+pub fn verif_block_free_list(addr: Address, limit: usize) -> (Address, usize, Vec<Address>) {
+    let block = Block::from_unaligned_address(addr);
+    let mut cells = vec![];
+    let mut cur = block.load_free_list();
+    while !cur.is_zero() && cells.len() < limit {
+        cells.push(cur);
+        cur = unsafe { cur.load::<Address>() };
+    }
+    (block.start(), block.load_block_cell_size(), cells)
+}
